@@ -1999,7 +1999,8 @@ func (schema *Schema) visitJSONObject(settings *schemaValidationSettings, value 
 				}
 			}
 
-			if value[propName] != nil {
+			// present, null included: a read-only property is not sent at all
+			if _, present := value[propName]; present {
 				if reqRO {
 					me = append(me, fmt.Errorf("readOnly property %q in request", propName))
 				} else if repWO {
